@@ -706,7 +706,7 @@ def run_check(mod, tier, seed, replay=None):
 
     # broken correspondence / proof obligation with no failing input
     if not violations:
-        if disagree and not failing:
+        if disagree:   # (failures, if any, are all known findings at this point)
             disagree.sort(key=lambda x: len(json.dumps(x[0])))
             s, t, v = disagree[0]
             # search: thorough budget of the generator on fresh seeds, evaluating holds on implementation traces
